@@ -202,7 +202,7 @@ func reduceDirected(g graph.Directed, communities [][]graph.Node) *ReducedDirect
 		}
 		communityOf := make(map[int64]int, len(nodes))
 		for i, n := range nodes {
-			r.nodes[i] = community{id: i, nodes: []graph.Node{n}}
+			r.nodes[i] = community{id: i, nodes: []graph.Node{n}, weight: weight(n.ID(), n.ID())}
 			communityOf[n.ID()] = i
 		}
 		for _, n := range nodes {
